@@ -207,6 +207,64 @@ class Body:
         r = self.reachable(start, removed_nodes=through_nodes, removed_edges=through_edges)
         return target not in r
 
+    def must_pass_cp(self, target, through_nodes=(), through_edges=(), start=0, cap=20000):
+        """must_pass with a light constant propagation from `start`: a plain bool local that is assigned a constant on the way
+        (`Err(_) => false`) and switched on later follows only the matching edge.  Locals assigned anything else are unknown from
+        there on.  Falls back to must_pass when the state space exceeds `cap`."""
+        through_nodes = set(through_nodes)
+        through_edges = set(through_edges)
+        if target in through_nodes:
+            return True
+        bools = {l for l in range(len(self.locals)) if self.local_ty(l) == "bool"}
+        seen = set()
+        todo = [(start, frozenset())]
+        while todo:
+            bb, known = todo.pop()
+            if (bb, known) in seen:
+                continue
+            seen.add((bb, known))
+            if len(seen) > cap:
+                return self.must_pass(target, through_nodes, through_edges, start)
+            if bb == target:
+                return False
+            if bb in through_nodes:
+                continue
+            k = dict(known)
+            for st in self.blocks[bb]["stmts"]:
+                if st["k"] != "assign" or st["pl"]["p"]:
+                    continue
+                l = st["pl"]["l"]
+                if l not in bools:
+                    continue
+                rv = st["rv"]
+                if rv["k"] == "use" and rv["ops"][0].get("k") == "const" and str(rv["ops"][0].get("val")) in ("0", "1"):
+                    k[l] = int(rv["ops"][0]["val"])
+                elif rv["k"] == "use" and rv["ops"][0].get("k") in ("copy", "move") and not rv["ops"][0]["pl"]["p"] and rv["ops"][0]["pl"]["l"] in k:
+                    k[l] = k[rv["ops"][0]["pl"]["l"]]
+                elif rv["k"] == "unop" and rv.get("op") == "Not" and rv["ops"][0].get("k") in ("copy", "move") and not rv["ops"][0]["pl"]["p"] and rv["ops"][0]["pl"]["l"] in k:
+                    k[l] = 1 - k[rv["ops"][0]["pl"]["l"]]
+                else:
+                    k.pop(l, None)
+            t = self.term(bb)
+            if t["k"] == "call" and not t["dest"]["p"]:
+                k.pop(t["dest"]["l"], None)
+            succs = list(self.succ(bb))
+            if t["k"] == "switch" and t["discr"].get("k") in ("copy", "move") and not t["discr"]["pl"]["p"] and t["discr"]["pl"]["l"] in k:
+                v = k[t["discr"]["pl"]["l"]]
+                tg = None
+                for (val, x) in t["targets"]:
+                    if int(val) == v:
+                        tg = x
+                if tg is None:
+                    tg = t.get("otherwise")
+                succs = [tg] if tg is not None else succs
+            nk = frozenset(k.items())
+            for s2 in succs:
+                if (bb, s2) in through_edges:
+                    continue
+                todo.append((s2, nk))
+        return True
+
     def must_pass_fs(self, target, through_nodes=(), through_edges=(), start=0, assume=None):
         """Flag-sensitive must_pass: bool locals that are only ever assigned constants are tracked exactly,
         so infeasible combinations of hand-written / drop flags are not explored."""
